@@ -50,8 +50,6 @@ let handle kind c =
     (match real with
      | Perr "panic" | Perr "hang" -> ()
      | _ -> check_eq "parse-result" show_obs model real);
-    if oob = "differs" && not (oob_head data) then
-      diff "oob-class" ~model:"no head load leaves the input" ~impl:"answer depends on bytes after the input";
     (* faithfulness on well-formed files *)
     (match spec_read data with
      | None -> ()
